@@ -16,7 +16,7 @@ from ..report import Report, key_of
 from ..terms import assume, dag_nodes, pretty
 from ..types import Ctx
 from .c02 import check_reprstr_levels
-from .common import TRUSTED_BASE, cfg_nodes_for, expanded_facts, inl, loop_runs_to_end, loop_unconditional, subst_single_assign, where
+from .common import TRUSTED_BASE, cfg_nodes_for, expanded_facts, inl, loop_runs_to_end, loop_unconditional, resolve_expr, subst_single_assign, where
 from .keyterm import branches, all_conj
 
 
@@ -34,8 +34,12 @@ def run(A, R: Report, thorough: bool):
     R.rule('R11.1', 'the traversal iterates every element of sequences and every value of mappings, recurses first, and applies the function only to values of an allowed type', floor=3)
     tparam = ftr.params[0]
     fce = fsa.params[1]
-    cfgt = A.cfg(ftr, inline=False)
+    cfgt = A.cfg(ftr)
     allnodes = list(cfgt.nodes)
+    triples = A.nodes_with_sites(ftr)
+
+    def rs(e, owner, sites):
+        return src(resolve_expr(A, ftr, e, owner, sites))
 
     def positive_kind(a_):
         """the branch fact says: the traversed object is a sequence / a mapping"""
@@ -54,52 +58,55 @@ def run(A, R: Report, thorough: bool):
             return 'mapping'
         return None
 
-    def iteration_sources(lp):
-        """[(iterable expression, node id whose branch facts hold when it is chosen)] for a loop of _traverse"""
-        heads = [n.id for n in cfgt.nodes.values() if n.kind == 'for' and n.ast is lp]
-        if not isinstance(lp.iter, ast.Name):
-            return [(lp.iter, h) for h in heads]
-        out = []
-        for n in A.typer.own_nodes(ftr):
-            if isinstance(n, ast.Assign) and len(n.targets) == 1 and src(n.targets[0]) == lp.iter.id:
-                out += [(n.value, cn.id) for cn in cfg_nodes_for(cfgt, n)]
-        return out
-
-    found = {'sequence': [], 'mapping': []}
-    loops = [n for n in A.typer.own_nodes(ftr) if isinstance(n, ast.For)]
-    for lp in loops:
-        for it, nid in iteration_sources(lp):
-            kinds = {positive_kind(a_) for a_, pol in expanded_facts(A, ftr, cfgt, nid) if pol} - {None}
-            if src(it) == f'enumerate({tparam})' and 'sequence' in kinds:
-                found['sequence'].append(lp)
-            elif src(it) == f'{tparam}.items()' and 'mapping' in kinds:
-                found['mapping'].append(lp)
+    expected = {'sequence': f'enumerate({tparam})', 'mapping': f'{tparam}.items()'}
+    found = {'sequence': False, 'mapping': False}
+    for lp, owner, sites in [(n, o, s_) for n, o, s_ in triples if isinstance(n, ast.For)]:
+        if not (isinstance(lp.target, ast.Tuple) and len(lp.target.elts) == 2 and all(isinstance(e_, ast.Name) for e_ in lp.target.elts)):
+            continue
+        idx, val = lp.target.elts[0].id, lp.target.elts[1].id
+        # what the loop iterates, per definition of its iterable (a local may be bound in several branches)
+        sources = []
+        if isinstance(lp.iter, ast.Name) and lp.iter.id not in owner.params and len(A.sym._local_defs(owner).get(lp.iter.id, [])) > 1:
+            for n in A.typer.own_nodes(owner):
+                if isinstance(n, ast.Assign) and len(n.targets) == 1 and src(n.targets[0]) == lp.iter.id:
+                    sources += [(src(n.value), cn.id) for cn in cfg_nodes_for(cfgt, n)]
+        else:
+            it = rs(lp.iter, owner, sites)
+            sources += [(it, h.id) for h in cfgt.nodes.values() if h.kind == 'for' and h.ast is lp]
+        stores = [n for n in ast.walk(lp) if isinstance(n, ast.Assign) and isinstance(n.targets[0], ast.Subscript) and rs(n.targets[0].value, owner, sites) == tparam and src(n.targets[0].slice) == idx
+                  and isinstance(n.value, ast.Call) and src(n.value.func) == fce and [src(a_) for a_ in n.value.args] == [val]]
+        recs = [n for n in ast.walk(lp) if isinstance(n, ast.Call) and src(n.func) == ftr.name and [src(a_) for a_ in n.args] == [val]]
+        if not stores or not recs:
+            continue
+        rec_always = loop_unconditional(cfgt, lp, recs[0]) and loop_runs_to_end(lp)
+        store_ids = {cn.id for s_ in stores for cn in cfg_nodes_for(cfgt, s_)}
+        for kind in ('sequence', 'mapping'):
+            for it, nid in sources:
+                if it != expected[kind]:
+                    continue
+                kinds = {positive_kind(a_) for a_, pol in expanded_facts(A, ftr, cfgt, nid) if pol} - {None}
+                if kind not in kinds:
+                    continue
+                # the copies of the loop that run under this kind
+                heads = [h.id for h in cfgt.nodes.values() if h.kind == 'for' and h.ast is lp and kind in ({positive_kind(a_) for a_, pol in cfgt.facts_at(h.id) if pol} | ({kind} if nid != h.id else set()))]
+                ok_all = bool(heads)
+                for h in heads:
+                    gates = list(store_ids)
+                    for n in cfgt.nodes.values():
+                        if n.kind == 'edge' and isinstance(n.ast, ast.Call):
+                            if src(n.ast.func) == ftr.name and [src(a_) for a_ in n.ast.args] == [val] and n.label == 'T':
+                                gates.append(n.id)
+                            if src(n.ast.func) == fiv.name and [src(a_) for a_ in n.ast.args] == [val] and n.label == 'F':
+                                gates.append(n.id)
+                    starts = cfgt.succ_by_label(h, 'loop')
+                    skip = cfgt.find_path(starts, [h], avoid=gates, no_exc_from=allnodes)
+                    ok_all = ok_all and skip is None
+                valid_guard = all(any(isinstance(a_, ast.Call) and src(a_.func) == fiv.name and pol for a_, pol in expanded_facts(A, ftr, cfgt, sid)) and
+                                  any(isinstance(a_, ast.Call) and src(a_.func) == ftr.name and not pol for a_, pol in expanded_facts(A, ftr, cfgt, sid)) for sid in store_ids)
+                if ok_all and rec_always and valid_guard:
+                    found[kind] = True
     for kind in ('sequence', 'mapping'):
-        ok = False
-        for lp in found[kind]:
-            idx, val = [src(e) for e in lp.target.elts] if isinstance(lp.target, ast.Tuple) and len(lp.target.elts) == 2 else (None, None)
-            stores = [n for n in ast.walk(lp) if isinstance(n, ast.Assign) and isinstance(n.targets[0], ast.Subscript) and src(n.targets[0].value) == tparam and src(n.targets[0].slice) == idx
-                      and isinstance(n.value, ast.Call) and src(n.value.func) == fce and [src(a_) for a_ in n.value.args] == [val]]
-            recs = [n for n in ast.walk(lp) if isinstance(n, ast.Call) and src(n.func) == ftr.name and [src(a_) for a_ in n.args] == [val]]
-            if not stores or not recs:
-                continue
-            # every element is recursed into; the store is skipped only for containers and for values the filter rejects
-            rec_always = all(loop_unconditional(cfgt, lp, r_) for r_ in recs[:1]) and loop_runs_to_end(lp)
-            gates = [cn.id for s_ in stores for cn in cfg_nodes_for(cfgt, s_)]
-            for n in cfgt.nodes.values():
-                if n.kind == 'edge' and isinstance(n.ast, ast.Call):
-                    if src(n.ast.func) == ftr.name and [src(a_) for a_ in n.ast.args] == [val] and n.label == 'T':
-                        gates.append(n.id)
-                    if src(n.ast.func) == fiv.name and [src(a_) for a_ in n.ast.args] == [val] and n.label == 'F':
-                        gates.append(n.id)
-            heads = [n.id for n in cfgt.nodes.values() if n.kind == 'for' and n.ast is lp]
-            starts = [v for h in heads for v in cfgt.succ_by_label(h, 'loop')]
-            skip = cfgt.find_path(starts, heads, avoid=gates, no_exc_from=allnodes)
-            valid_guard = all(any(isinstance(a_, ast.Call) and src(a_.func) == fiv.name and pol for a_, pol in expanded_facts(A, ftr, cfgt, cn.id)) and
-                              any(isinstance(a_, ast.Call) and src(a_.func) == ftr.name and not pol for a_, pol in expanded_facts(A, ftr, cfgt, cn.id))
-                              for s_ in stores for cn in cfg_nodes_for(cfgt, s_))
-            ok = rec_always and skip is None and valid_guard
-        R.check(ok, 'R11.1', f'search_and_apply._traverse: {kind} branch', key_of(kind, ok), 'every element visited, recursed into, replaced in place when valid',
+        R.check(found[kind], 'R11.1', f'search_and_apply._traverse: {kind} branch', key_of(kind, found[kind]), 'every element visited, recursed into, replaced in place when valid',
                 f'the {kind} branch does not visit every element / recurse / store the result back: placeholders at some depth or position stay unsubstituted', where=where(ftr))
     # dispatch: `return True` only after a container test succeeded, `return False` only after both failed
     rets_t = [n for n in cfgt.nodes.values() if n.kind == 'stmt' and isinstance(n.ast, ast.Return) and isinstance(n.ast.value, ast.Constant) and n.ast.value.value is True]
